@@ -94,11 +94,15 @@ PART = ' PARTIAL (see evidence.partial and DESIGN.md): '
 CLAIMS['C01'] = {
     'text': ('Theorems seq_get_fresh / seq_block_fresh / seq_targeted_exact / fresh_disjoint_from_allocated / fresh_in_range: in every sequential history, '
              'a block returned by LLFree::get (any path) is aligned, consists of frames that were all free and inside the managed range (hence disjoint '
-             'from every block handed out and not freed), is the target if one was given, and exactly its frames become allocated.'
-             + PART + 'the statement over all interleavings is not a theorem; the concurrent part is explored by scheduler-controlled runs of the '
-             'real threads (preemption-bounded DFS + random schedules) whose event traces are replayed on the Lean interleaving semantics.'),
+             'from every block handed out and not freed), is the target if one was given, and exactly its frames become allocated. '
+             'Theorems conc_bitfield_blocks_disjoint / conc_invariant_all_schedules: for ANY number of threads and EVERY schedule of single atomic '
+             'accesses (unbounded), targeted allocations and frees of held blocks by Bitfield::toggle (all orders up to the huge order: single-word '
+             'update, narrow compare-exchange, multi-row with roll-back) never hand out overlapping blocks - an ownership (rely/guarantee) invariant '
+             'preserved by every atomic step.' + PART + 'for the whole allocator (set_first_zeros search, huge counters/markers, tree counters, '
+             'reservations) the all-interleavings statement is not a theorem; that part is explored by scheduler-controlled runs of the real threads '
+             '(preemption-bounded DFS + random schedules) whose event traces are replayed on the Lean interleaving semantics.'),
     'note': TB + ' Upper-level theorems hold for configurations satisfying CfgOk (class ids < 8, ordered policy, tree size < 2^19: every configuration of the repository; derived from elementary checks by CfgOk.of_checks); they depend on the C23 theorem (bv_decide axioms) through the lower search.',
-    'technique': 'Lean 4 refinement proof (all sequential histories) + trace co-simulation of real threads against the Lean single-access interleaving semantics with an ownership oracle',
+    'technique': 'Lean 4 refinement proof (all sequential histories) + ownership invariant over the single-access interleaving semantics (bitfield level, all schedules) + trace co-simulation of real threads with an ownership oracle',
 }
 CLAIMS['C02'] = {
     'text': ('Theorems put_refines / get_refines / drain_keeps_allocation / change_keeps_allocation / history_keeps_invariant (+ the lower-level '
@@ -117,8 +121,11 @@ CLAIMS['C03'] = {
     'text': ('Theorem k1_spin_panics REFUTES the property for the unchanged code: a kernel-evaluated schedule of the interleaving semantics in '
              'which two threads free parts of one whole huge frame and the loser exhausts RETRIES and panics "Exceeding retries" (known finding K1, '
              'replayed on the real threads by the co-simulation). Theorems seq_history_never_panics / held_free_succeeds_upper / seq_no_panic_lower: '
-             'sequentially no call of any history panics and every free of a held block succeeds.' + PART + 'panic-freedom of the other sites under all '
-             'interleavings is explored (DFS/random schedules with panic capture and the held-free oracle), not proved.'),
+             'sequentially no call of any history panics and every free of a held block succeeds. Theorems conc_bitfield_no_panic / '
+             'conc_free_of_held_succeeds: under EVERY interleaving of any number of threads, at the bitfield level (Bitfield::toggle, all orders), '
+             'no access panics, the roll-back \"Failed undo toggle\" cannot fail and frees of held blocks succeed.' + PART + 'panic-freedom of the '
+             'other sites (set_first_zeros, counters/markers, upper level) under all interleavings is explored (DFS/random schedules with panic capture '
+             'and the held-free oracle, sequential histories), not proved.'),
     'note': TB + ' Upper-level theorems hold for configurations satisfying CfgOk (class ids < 8, ordered policy, tree size < 2^19: every configuration of the repository; derived from elementary checks by CfgOk.of_checks); they depend on the C23 theorem (bv_decide axioms) through the lower search.',
     'technique': 'Lean 4: refutation by a kernel-checked schedule (decide) + sequential panic-freedom theorems over all histories; trace co-simulation with known-finding matching',
 }
@@ -133,13 +140,17 @@ CLAIMS['C04'] = {
     'technique': 'Lean 4 theorems from the lower and upper invariants + accounting oracle in the sequential differential and at quiescent ends of co-simulated interleavings',
 }
 CLAIMS['C05'] = {
-    'text': ('Theorems recover_marker / recover_counter / recover_fixpoint_act about the per-entry decision of Lower::recover (the model of recover '
-             'is written over this pure function): a whole-huge marker survives and its bitfield is cleared; every other entry is set to the '
-             'number of zero bits of its bitfield; consistent entries are not written.' + PART + 'the lift to the recover loop and to every crash '
-             'point of every interleaving is not a theorem; crash points before atomic writes of explored schedules are recovered with the real '
-             'code and checked (held blocks allocated and freeable, accounting consistent, only in-flight frames missing).'),
+    'text': ('Theorems recover_reestablishes / lower_recover_spec / recover_then_history / quiescent_is_crash_state (+ recover_marker / recover_counter / '
+             'recover_fixpoint_act): from ANY persistent state satisfying the weak invariant CrashInv (sizes, no free frame outside the managed range, '
+             'whole-huge markers only inside it; counters arbitrary, a split half done, bitfields of whole huge frames partly filled) and zeroed '
+             'volatile buffers, new(Init::Recover) - count_zeros, fill, both loops, Trees::new - never panics, re-establishes the lower and upper '
+             'invariants with nothing hidden (fast = exact, C04) and keeps the allocation status of EVERY frame exactly as recorded by markers and bits; '
+             'any history may follow.' + PART + 'that every state a crash can leave at any point of any interleaving satisfies CrashInv, and that at '
+             'that instant the bits of completed allocations are set and those of untouched frames unchanged (the concurrent ownership invariant: proved '
+             'for the bitfield level only, C01), are not theorems: crash points before atomic writes of explored schedules are recovered with the real '
+             'code and checked (held blocks allocated and freeable, frames allocated by the setup still allocated, accounting consistent).'),
     'note': TB + ' A crash is modelled as loss of everything but the lower buffer at an atomic-access boundary.',
-    'technique': 'Lean 4 theorems about the recovery decision logic + crash-point oracle inside the trace co-simulation + sequential differential of recover',
+    'technique': 'Lean 4 proof of the recovery program from every weak-invariant state + crash-point oracle inside the trace co-simulation + sequential differential of recover',
 }
 CLAIMS['C06'] = {
     'text': ('Theorems free_all_establishes / alloc_all_establishes / lower_free_all_inv / lower_reserve_all_inv: for EVERY frame count (incl. 0) and geometry, from '
